@@ -72,6 +72,8 @@ def impl_statements(text):
         out.append(['unknown', type(st).__name__])
   except Exception as e:  # pylint: disable=broad-except
     err = family(e)
+    if not err.startswith('syntax'):
+      return {'stmts': out, 'err': err, 'err_msg': str(e)[:120]}
   return {'stmts': out, 'err': err}
 
 
